@@ -10,10 +10,12 @@ from .common import firmware, send_sites, protocol_classes
 from sa.decide import Walker, completions, cmp_parts, is_pure, values_at
 from .c06 import _strip
 
-TECHNIQUE = ("provenance expansion + byte-layout normalisation of every payload sent by the sign exchanges, "
-             "compared with the firmware's layout; dominance rules for step order / success gating; structural "
-             "recurrence rules on the chunking loop; argument wiring from request fields to device calls and from "
-             "the device's signature to the reply; slice table of the DER parser")
+TECHNIQUE = ('provenance expansion + byte-layout normalisation of every payload sent by the sign exchanges, '
+             "compared with the firmware's layout; dominance rules for step order / success gating; decision table "
+             "of one iteration of the chunk loop (predicate-abstraction walk, independent of the loop's surface "
+             "shape); answer-field tracing of each step's first chunk size; path-sensitive argument wiring from "
+             "request fields to device calls and from the device's signature to the reply; slice table of the DER "
+             'parser; the script-blanking frame shared with C14')
 EXPLANATION = (
     "Static analysis of /repo's current source (nothing executed). Decides the shape of what is sent and when "
     "success may be reported: the five sign payload layouts (path|input index; length-prefixed tx with mode, "
